@@ -181,6 +181,9 @@ def stepWal (st : State) (toks : List String) : State × String :=
 def codecCfg (ver : String) : Codec.Cfg :=
   { v2 := ver != "1", overflowSafe := Facts.codecSizeCheckOverflowSafe, readGuarded := Facts.codecReadIntGuarded }
 
+def roCfg : Codec.ROCfg :=
+  { lenGuard := Facts.readIndexChecksLength, emptyGuard := Facts.readOnlySegmentRefusesEmptyIndex }
+
 def showRecovered : Codec.Res Codec.Recovered → String
   | .ok r => "ok idx=" ++ String.intercalate "," (r.index.map toString) ++ " crc=" ++ toString r.lastCrc ++
       " off=" ++ toString r.newFileOffset ++ " n=" ++ toString r.count
@@ -206,6 +209,25 @@ def stepCodec (st : State) (toks : List String) : State × String :=
         | .errEmptyPayload => "err:empty"
         | .errDataCorrupted => "err:corrupt"
         | .panic => "panic")
+    | _, _ => (st, "bad-op")
+  | "cx.openro" :: ver :: idxFile :: txn :: _ =>
+    -- a read-only segment opened on an index file and a txn file as they are given; what it serves
+    match (if idxFile == "." then some [] else Hex.decode idxFile), Hex.decode txn with
+    | some idxFile, some txn =>
+      let c := codecCfg ver
+      let showErr : {α : Type} → Codec.Res α → String := fun r => match r with
+        | .ok _ => "ok"
+        | .errOutOfBounds => "err:oob"
+        | .errEmptyPayload => "err:empty"
+        | .errDataCorrupted => "err:corrupt"
+        | .panic => "panic"
+      (st, match Codec.openReadOnly c roCfg Codec.oxiaCrc idxFile txn with
+        | .ok s =>
+          let ps := (List.range s.count).map fun k => match Codec.roRead c Codec.oxiaCrc s txn k with
+            | .ok p => Hex.encode p
+            | r => showErr r
+          "ok n=" ++ toString s.count ++ " crc=" ++ toString s.lastCrc ++ " p=" ++ String.intercalate "," ps
+        | r => showErr r)
     | _, _ => (st, "bad-op")
   | "cx.encode" :: ver :: prev :: payload :: _ =>
     match prev.toNat?, Hex.decode payload with
